@@ -158,7 +158,10 @@ def pollRecvResponse (S : Src σ) (H : Hdr) (st : St σ) : Res × St σ :=
     | .malformed =>
       (.errStream CODE_H3_MESSAGE_ERROR,
        { st' with env := { st'.env with stop := first st'.env.stop CODE_H3_MESSAGE_ERROR } })
-  | .none => connErr st' CODE_H3_FRAME_UNEXPECTED
+  -- the response stream ended before any frame: the response is missing, an error of THIS request (nothing is
+  -- sent: the receive side is over; the cell is not touched).  Before the repair 132f8d8 this was the connection
+  -- error H3_FRAME_UNEXPECTED (finding D-07a, C07).
+  | .none => (.errStream CODE_H3_MESSAGE_ERROR, st')
   | .frame _ => connErr st' CODE_H3_FRAME_UNEXPECTED
   | .pending => (.pending, st')
   | e => fsErr st' e
@@ -452,6 +455,9 @@ inductive Cmd where
   /-- `recv_data` until it answers `None` or an error -/
   | rda
   | rt
+  /-- `RequestStream::split`: the task goes on with the receive half (the send half becomes another
+      task, which this model does not follow) -/
+  | sp
 deriving Repr, DecidableEq
 
 structure Call where
@@ -469,6 +475,8 @@ inductive Ans where
   | res (r : Res)
   | noTask
   | badCmd
+  /-- a command without a result of its own (`split`) has been carried out -/
+  | ok
 deriving Repr, DecidableEq
 
 structure Sim where
@@ -484,6 +492,13 @@ structure Sim where
 
 def Sim.fuel (m : Sim) : Nat := fsFuel m.st.src
 
+/-- `RequestStream::split` / `FrameStream::split` / `BufRecvStream::split` as seen from the receive
+    half: it takes over the buffered bytes, the decoder state and `remaining_data` (all in `src`),
+    the saved trailers, and shares the connection state — nothing of what the receive calls look
+    at changes. -/
+def St.recvHalf {σ : Type} (st : St σ) : St σ :=
+  { src := st.src, trailers := st.trailers, env := st.env }
+
 /-- one attempt at a call: `none` = still pending -/
 def attempt (H : Hdr) (m : Sim) (c : Call) : Nat → Option Sim
   | 0 => some { m with log := (c.cmd, .res .invalid) :: m.log }
@@ -492,6 +507,7 @@ def attempt (H : Hdr) (m : Sim) (c : Call) : Nat → Option Sim
       { m with st := st, resolved := resolved, log := (cmd, .res r) :: m.log,
                alive := !(c.halt && r.isErr) }
     match c.cmd with
+    | .sp => some { m with st := m.st.recvHalf, log := (.sp, .ok) :: m.log }
     | .res =>
       let (r, st) := pollResolve fsSrc H m.st
       if r = .pending then none
